@@ -395,6 +395,9 @@ class World:
         """Truth value of a symbolic condition: explored both ways (path forking)."""
         it.event("symbolic-truth", node,
                  f"python truth value of symbolic `{short(node, 60)}`", data=v.t)
+        for t, c, _ in self.assumptions:
+            if t == v.t:
+                return c  # the same condition was decided before on this path
         i = len(self.trace)
         choice = self.decisions[i] if i < len(self.decisions) else True
         self.trace.append(choice)
